@@ -631,3 +631,352 @@ theorem extent_eq_C02 (g : GeoBox) : g.extentHead :: g.extentTail = C02.extent (
   simp [GeoBox.extentHead, GeoBox.extentTail, C02.extent, C02.corners, toC02]
 
 end OdcGeo.C16
+
+/-! ## Part O — growth round 3: world-coordinate tightness of `enclosing` -/
+
+namespace OdcGeo.C16
+open OdcGeo
+
+/-- `~A * (x, y)` for an axis-aligned invertible transform -/
+theorem inv_apply_axis (A : Aff) (hb : A.b = 0) (hd : A.d = 0) (hdet : A.det ≠ 0) (q : Pt) :
+    A.inv.apply q = ((q.1 - A.c) / A.a, (q.2 - A.f) / A.e) := by
+  have hae : A.a * A.e ≠ 0 := by simpa [Aff.det, hb, hd] using hdet
+  have ha : A.a ≠ 0 := left_ne_zero_of_mul hae
+  have he : A.e ≠ 0 := right_ne_zero_of_mul hae
+  simp only [Aff.inv, Aff.apply, Aff.det, hb, hd, Prod.mk.injEq]
+  constructor <;> field_simp <;> ring
+
+/-- one axis of `enclosing` on an axis-aligned grid, in world units: `p`, `q` are the pixel
+coordinates of the two edges `l = a p + c ≤ r = a q + c` of the region, `[tx, tx + n]` the pixel
+interval of the result (covers both, excess < 1 px per side, or the one-pixel degenerate case) -/
+theorem axis_tight (a c p q : Rat) (ha : a ≠ 0) (tx n : Int) (hlr : a * p + c ≤ a * q + c)
+    (cp : (tx : Rat) ≤ p ∧ p ≤ tx + n) (_cq : (tx : Rat) ≤ q ∧ q ≤ tx + n)
+    (hlo : p - tx < 1 ∨ q - tx < 1)
+    (hhi : ((tx : Rat) + n - p < 1 ∨ (tx : Rat) + n - q < 1) ∨ (n = 1 ∧ p = tx ∧ q = tx)) :
+    ((a * p + c) - min (a * tx + c) (a * (tx + n) + c) < |a| ∧
+      max (a * tx + c) (a * (tx + n) + c) - (a * q + c) < |a|) ∨
+    (n = 1 ∧ a * p + c = a * q + c ∧
+      max (a * tx + c) (a * (tx + n) + c) - min (a * tx + c) (a * (tx + n) + c) = |a|) := by
+  have hn : (0 : Rat) ≤ n := by linarith [cp.1, cp.2]
+  rcases lt_or_gt_of_ne ha with hneg | hpos
+  · -- a < 0 : p ≥ q, the world-left edge is the pixel-high edge
+    have hpq : q ≤ p := by
+      by_contra h
+      have := mul_lt_mul_of_neg_left (lt_of_not_ge h) hneg
+      linarith
+    have hmin : min (a * tx + c) (a * (tx + n) + c) = a * (tx + n) + c :=
+      min_eq_right (by nlinarith)
+    have hmax : max (a * tx + c) (a * (tx + n) + c) = a * tx + c :=
+      max_eq_left (by nlinarith)
+    rw [hmin, hmax, abs_of_neg hneg]
+    rcases hhi with hh | ⟨h1, h2, h3⟩
+    · left
+      have hp : (tx : Rat) + n - p < 1 := by rcases hh with h | h <;> linarith
+      have hq : q - tx < 1 := by rcases hlo with h | h <;> linarith
+      constructor <;> nlinarith
+    · right
+      refine ⟨h1, by rw [h2, h3], ?_⟩
+      have : (n : Rat) = 1 := by exact_mod_cast h1
+      rw [this]; ring
+  · have hpq : p ≤ q := by
+      by_contra h
+      have := mul_lt_mul_of_pos_left (lt_of_not_ge h) hpos
+      linarith
+    have hmin : min (a * tx + c) (a * (tx + n) + c) = a * tx + c :=
+      min_eq_left (by nlinarith)
+    have hmax : max (a * tx + c) (a * (tx + n) + c) = a * (tx + n) + c :=
+      max_eq_right (by nlinarith)
+    rw [hmin, hmax, abs_of_pos hpos]
+    rcases hhi with hh | ⟨h1, h2, h3⟩
+    · left
+      have hq : (tx : Rat) + n - q < 1 := by rcases hh with h | h <;> linarith
+      have hp : p - tx < 1 := by rcases hlo with h | h <;> linarith
+      constructor <;> nlinarith
+    · right
+      refine ⟨h1, by rw [h2, h3], ?_⟩
+      have : (n : Rat) = 1 := by exact_mod_cast h1
+      rw [this]; ring
+
+end OdcGeo.C16
+
+namespace OdcGeo.C16
+open OdcGeo
+
+/-- **`enclosing(bbox)` in world units on an axis-aligned grid** (north-up, south-up, mirrored, any
+pixel size): the world bounding box of the result exceeds the region by less than one pixel size on
+every side — except when the region has zero extent on an axis and sits on a grid line, where a
+one-pixel GeoBox is returned (then the result is exactly one pixel wide on that axis). -/
+theorem enclosing_bbox_world_tight (g : GeoBox) (hdet : g.aff.det ≠ 0) (hg : g.crs ≠ none)
+    (hb : g.aff.b = 0) (hd : g.aff.d = 0) (reproj : Reproj) (bb : BBox Rat) (hc : bb.crs = g.crs)
+    (hlr : bb.left ≤ bb.right) (hbt : bb.bottom ≤ bb.top) :
+    ∃ res : GeoBox, g.enclosingRegion reproj (.bbox bb) = .ok res ∧
+      ((bb.left - res.boundingbox.left < |g.aff.a| ∧ res.boundingbox.right - bb.right < |g.aff.a|) ∨
+        (res.nx = 1 ∧ bb.left = bb.right ∧ res.boundingbox.right - res.boundingbox.left = |g.aff.a|)) ∧
+      ((bb.bottom - res.boundingbox.bottom < |g.aff.e| ∧ res.boundingbox.top - bb.top < |g.aff.e|) ∨
+        (res.ny = 1 ∧ bb.bottom = bb.top ∧ res.boundingbox.top - res.boundingbox.bottom = |g.aff.e|)) := by
+  have hae : g.aff.a * g.aff.e ≠ 0 := by simpa [Aff.det, hb, hd] using hdet
+  have ha : g.aff.a ≠ 0 := left_ne_zero_of_mul hae
+  have he : g.aff.e ≠ 0 := right_ne_zero_of_mul hae
+  have hr : (Region.bbox bb).crs ≠ none := by simpa [Region.crs, hc] using hg
+  obtain ⟨res, tx, ty, h, e, n1, n2, hcov, lox, loy, hix, hiy⟩ := enclosing_region_spec g hdet hg reproj (.bbox bb) hr
+  have hh : (Region.bbox bb).worldHead reproj g.crs = (bb.left, bb.bottom) := by
+    simp [Region.worldHead, Region.crs, Region.head, BBox.ringHead, hc]
+  have ht : (Region.bbox bb).worldTail reproj g.crs =
+      [(bb.left, bb.top), (bb.right, bb.top), (bb.right, bb.bottom), (bb.left, bb.bottom)] := by
+    simp [Region.worldTail, Region.crs, Region.tail, BBox.ringTail, hc]
+  rw [hh, ht] at hcov lox loy hix hiy
+  simp only [inv_apply_axis g.aff hb hd hdet] at lox loy hix hiy
+  refine ⟨res, h, ?_, ?_⟩
+  -- world bounding box of the result
+  all_goals
+    have hW := congrArg GeoBox.boundingbox e
+    rw [boundingbox_onGrid, transform_axis _ _ hb hd] at hW
+  · -- x axis
+    have cov : ∀ x y : Rat, (∃ w ∈ [(bb.left, bb.bottom), (bb.left, bb.top), (bb.right, bb.top), (bb.right, bb.bottom),
+        (bb.left, bb.bottom)], w = (x, y)) → (tx : Rat) ≤ (x - g.aff.c) / g.aff.a ∧ (x - g.aff.c) / g.aff.a ≤ tx + res.nx := by
+      rintro x y ⟨w, hw, rfl⟩
+      obtain ⟨u, v, u0, u1, -, -, huv⟩ := hcov (x, y) hw
+      rw [e] at huv
+      simp only [onGrid, apply_mul_translation] at huv
+      simp only [Aff.apply, hb, zero_mul, add_zero, Prod.mk.injEq] at huv
+      have : (x - g.aff.c) / g.aff.a = u + tx := by rw [← huv.1]; field_simp; ring
+      rw [this]
+      have hnx : ((onGrid g ⟨tx, ty, tx + res.nx, ty + res.ny⟩).nx : Rat) = res.nx := by simp [onGrid]
+      constructor <;> linarith
+    have cp := cov bb.left bb.bottom ⟨_, by simp, rfl⟩
+    have cq := cov bb.right bb.top ⟨_, by simp, rfl⟩
+    have hlo : (bb.left - g.aff.c) / g.aff.a - tx < 1 ∨ (bb.right - g.aff.c) / g.aff.a - tx < 1 := by
+      obtain ⟨w, hw, hlt⟩ := lox
+      simp only [List.mem_cons, List.mem_nil_iff, or_false] at hw
+      rcases hw with rfl | rfl | rfl | rfl | rfl <;> simp only at hlt <;> first | exact Or.inl hlt | exact Or.inr hlt
+    have hhi : (((tx : Rat) + res.nx - (bb.left - g.aff.c) / g.aff.a < 1) ∨
+        ((tx : Rat) + res.nx - (bb.right - g.aff.c) / g.aff.a < 1)) ∨
+        (res.nx = 1 ∧ (bb.left - g.aff.c) / g.aff.a = tx ∧ (bb.right - g.aff.c) / g.aff.a = tx) := by
+      rcases hix with ⟨w, hw, hlt⟩ | ⟨h1, hall⟩
+      · left
+        simp only [List.mem_cons, List.mem_nil_iff, or_false] at hw
+        rcases hw with rfl | rfl | rfl | rfl | rfl <;> simp only at hlt <;> first | exact Or.inl hlt | exact Or.inr hlt
+      · right
+        exact ⟨h1, hall (bb.left, bb.bottom) (by simp), hall (bb.right, bb.top) (by simp)⟩
+    have el : g.aff.a * ((bb.left - g.aff.c) / g.aff.a) + g.aff.c = bb.left := by field_simp; ring
+    have er : g.aff.a * ((bb.right - g.aff.c) / g.aff.a) + g.aff.c = bb.right := by field_simp; ring
+    have key := axis_tight g.aff.a g.aff.c _ _ ha tx res.nx (by rw [el, er]; exact hlr) cp cq hlo hhi
+    rw [el, er] at key
+    rw [hW]
+    simp only
+    push_cast
+    exact key
+  · -- y axis
+    have cov : ∀ x y : Rat, (∃ w ∈ [(bb.left, bb.bottom), (bb.left, bb.top), (bb.right, bb.top), (bb.right, bb.bottom),
+        (bb.left, bb.bottom)], w = (x, y)) → (ty : Rat) ≤ (y - g.aff.f) / g.aff.e ∧ (y - g.aff.f) / g.aff.e ≤ ty + res.ny := by
+      rintro x y ⟨w, hw, rfl⟩
+      obtain ⟨u, v, -, -, v0, v1, huv⟩ := hcov (x, y) hw
+      rw [e] at huv
+      simp only [onGrid, apply_mul_translation] at huv
+      simp only [Aff.apply, hd, zero_mul, zero_add, Prod.mk.injEq] at huv
+      have : (y - g.aff.f) / g.aff.e = v + ty := by rw [← huv.2]; field_simp; ring
+      rw [this]
+      have hny : ((onGrid g ⟨tx, ty, tx + res.nx, ty + res.ny⟩).ny : Rat) = res.ny := by simp [onGrid]
+      constructor <;> linarith
+    have cp := cov bb.left bb.bottom ⟨_, by simp, rfl⟩
+    have cq := cov bb.right bb.top ⟨_, by simp, rfl⟩
+    have hlo : (bb.bottom - g.aff.f) / g.aff.e - ty < 1 ∨ (bb.top - g.aff.f) / g.aff.e - ty < 1 := by
+      obtain ⟨w, hw, hlt⟩ := loy
+      simp only [List.mem_cons, List.mem_nil_iff, or_false] at hw
+      rcases hw with rfl | rfl | rfl | rfl | rfl <;> simp only at hlt <;> first | exact Or.inl hlt | exact Or.inr hlt
+    have hhi : (((ty : Rat) + res.ny - (bb.bottom - g.aff.f) / g.aff.e < 1) ∨
+        ((ty : Rat) + res.ny - (bb.top - g.aff.f) / g.aff.e < 1)) ∨
+        (res.ny = 1 ∧ (bb.bottom - g.aff.f) / g.aff.e = ty ∧ (bb.top - g.aff.f) / g.aff.e = ty) := by
+      rcases hiy with ⟨w, hw, hlt⟩ | ⟨h1, hall⟩
+      · left
+        simp only [List.mem_cons, List.mem_nil_iff, or_false] at hw
+        rcases hw with rfl | rfl | rfl | rfl | rfl <;> simp only at hlt <;> first | exact Or.inl hlt | exact Or.inr hlt
+      · right
+        exact ⟨h1, hall (bb.left, bb.bottom) (by simp), hall (bb.right, bb.top) (by simp)⟩
+    have el : g.aff.e * ((bb.bottom - g.aff.f) / g.aff.e) + g.aff.f = bb.bottom := by field_simp; ring
+    have er : g.aff.e * ((bb.top - g.aff.f) / g.aff.e) + g.aff.f = bb.top := by field_simp; ring
+    have key := axis_tight g.aff.e g.aff.f _ _ he ty res.ny (by rw [el, er]; exact hbt) cp cq hlo hhi
+    rw [el, er] at key
+    rw [hW]
+    simp only
+    push_cast
+    exact key
+
+end OdcGeo.C16
+
+namespace OdcGeo.C16
+open OdcGeo
+
+/-! ## Part P — growth round 3: empty geometries, `BoundingBox.to_crs` / `boundary`, non-linear operands -/
+
+/-- **An empty geometry is never enclosed**: whatever the GeoBox (also a degenerate one), the CRSs and
+pyproj, `enclosing` of an empty region is an error — never a GeoBox placed somewhere by default. -/
+theorem enclosing_empty_rejected (g : GeoBox) (reproj : Reproj) (crs : Option Nat) :
+    ∃ e, g.enclosingGeomL reproj crs [] = .error e := by
+  unfold GeoBox.enclosingGeomL
+  split_ifs <;> exact ⟨_, rfl⟩
+
+/-- `project` of an empty geometry is the empty geometry (with the CRS bookkeeping of the non-empty
+case); the only error left is a geo-registered region on a GeoBox without CRS; a degenerate grid is not
+noticed.  Non-empty sequences are the modelled `project` / `enclosing`. -/
+theorem projectL_spec (g : GeoBox) (reproj : Reproj) (crs : Option Nat) :
+    (crs = none → g.projectL reproj crs [] = .ok (g.crs, [])) ∧
+    (crs ≠ none → g.crs = none → g.projectL reproj crs [] = .error .assertion) ∧
+    (crs ≠ none → g.crs ≠ none → g.projectL reproj crs [] = .ok (none, [])) ∧
+    (∀ p ps, g.enclosingGeomL reproj crs (p :: ps) = g.enclosingRegion reproj (.geom crs p ps)) ∧
+    (∀ p ps c q qs, g.project reproj crs p ps = .ok (c, q, qs) → g.projectL reproj crs (p :: ps) = .ok (c, q :: qs)) := by
+  refine ⟨fun h => by simp [GeoBox.projectL, h], fun h1 h2 => by simp [GeoBox.projectL, h1, h2],
+    fun h1 h2 => by simp [GeoBox.projectL, h1, h2], fun _ _ => rfl, ?_⟩
+  intro p ps c q qs h
+  simp [GeoBox.projectL, h]
+
+/-- `BoundingBox.to_crs`: a box without CRS is refused; otherwise the result carries the destination
+CRS, contains the image of every vertex of the box's ring and is the smallest such box (for an equal
+CRS the images are the vertices themselves: a proper box comes back unchanged, an inverted one sorted). -/
+theorem bbox_toCrs_spec (bb : BBox Rat) (reproj : Reproj) (dst : Nat) :
+    (bb.crs = none → bb.toCrs reproj dst = .error .valueError) ∧
+    (bb.crs ≠ none → ∃ out, bb.toCrs reproj dst = .ok out ∧ out.crs = some dst ∧
+      let f : Pt → Pt := if bb.crs = some dst then fun q => q else reproj bb.crs (some dst)
+      (∀ q ∈ bb.ringHead :: bb.ringTail, out.Contains (f q)) ∧
+      (∀ c : BBox Rat, (∀ q ∈ bb.ringHead :: bb.ringTail, c.Contains (f q)) → out.Within c)) := by
+  constructor
+  · intro h
+    have : ¬ (none : Option Nat) = some dst := by simp
+    simp [BBox.toCrs, h]
+  · intro h
+    have key : ∀ (f : Pt → Pt),
+        (∀ q ∈ bb.ringHead :: bb.ringTail, (bboxOfPoints (f bb.ringHead) (bb.ringTail.map f) (some dst)).Contains (f q)) ∧
+        (∀ c : BBox Rat, (∀ q ∈ bb.ringHead :: bb.ringTail, c.Contains (f q)) →
+          (bboxOfPoints (f bb.ringHead) (bb.ringTail.map f) (some dst)).Within c) := by
+      intro f
+      have hx1 := minL_le (f bb.ringHead).1 ((bb.ringTail.map f).map (·.1))
+      have hx2 := le_maxL (f bb.ringHead).1 ((bb.ringTail.map f).map (·.1))
+      have hy1 := minL_le (f bb.ringHead).2 ((bb.ringTail.map f).map (·.2))
+      have hy2 := le_maxL (f bb.ringHead).2 ((bb.ringTail.map f).map (·.2))
+      constructor
+      · intro q hq
+        simp only [List.mem_cons] at hq
+        rcases hq with rfl | hq
+        · exact ⟨hx1.1, hx2.1, hy1.1, hy2.1⟩
+        · have m1 : (f q).1 ∈ (bb.ringTail.map f).map (·.1) := List.mem_map_of_mem (List.mem_map_of_mem hq)
+          have m2 : (f q).2 ∈ (bb.ringTail.map f).map (·.2) := List.mem_map_of_mem (List.mem_map_of_mem hq)
+          exact ⟨hx1.2 _ m1, hx2.2 _ m1, hy1.2 _ m2, hy2.2 _ m2⟩
+      · intro c hc
+        have back : ∀ v, v ∈ (bb.ringTail.map f).map (·.1) → ∃ q ∈ bb.ringTail, (f q).1 = v := by
+          intro v hv
+          simp only [List.map_map, List.mem_map, Function.comp] at hv
+          exact hv
+        have back2 : ∀ v, v ∈ (bb.ringTail.map f).map (·.2) → ∃ q ∈ bb.ringTail, (f q).2 = v := by
+          intro v hv
+          simp only [List.map_map, List.mem_map, Function.comp] at hv
+          exact hv
+        have c0 := hc bb.ringHead (List.mem_cons_self ..)
+        refine ⟨?_, ?_, ?_, ?_⟩
+        · rcases minL_mem (f bb.ringHead).1 ((bb.ringTail.map f).map (·.1)) with e | e
+          · show c.left ≤ minL _ _; rw [e]; exact c0.1
+          · obtain ⟨q, hq, hv⟩ := back _ e
+            show c.left ≤ minL _ _; rw [← hv]; exact (hc q (List.mem_cons_of_mem _ hq)).1
+        · rcases minL_mem (f bb.ringHead).2 ((bb.ringTail.map f).map (·.2)) with e | e
+          · show c.bottom ≤ minL _ _; rw [e]; exact c0.2.2.1
+          · obtain ⟨q, hq, hv⟩ := back2 _ e
+            show c.bottom ≤ minL _ _; rw [← hv]; exact (hc q (List.mem_cons_of_mem _ hq)).2.2.1
+        · rcases maxL_mem (f bb.ringHead).1 ((bb.ringTail.map f).map (·.1)) with e | e
+          · show maxL _ _ ≤ c.right; rw [e]; exact c0.2.1
+          · obtain ⟨q, hq, hv⟩ := back _ e
+            show maxL _ _ ≤ c.right; rw [← hv]; exact (hc q (List.mem_cons_of_mem _ hq)).2.1
+        · rcases maxL_mem (f bb.ringHead).2 ((bb.ringTail.map f).map (·.2)) with e | e
+          · show maxL _ _ ≤ c.top; rw [e]; exact c0.2.2.2
+          · obtain ⟨q, hq, hv⟩ := back2 _ e
+            show maxL _ _ ≤ c.top; rw [← hv]; exact (hc q (List.mem_cons_of_mem _ hq)).2.2.2
+    by_cases hs : bb.crs = some dst
+    · refine ⟨bboxOfPoints bb.ringHead bb.ringTail (some dst), by simp [BBox.toCrs, hs], rfl, ?_⟩
+      have := key (fun q => q)
+      simpa [hs] using this
+    · refine ⟨bboxOfPoints (reproj bb.crs (some dst) bb.ringHead) (bb.ringTail.map (reproj bb.crs (some dst))) (some dst),
+        by simp [BBox.toCrs, hs, h], rfl, ?_⟩
+      have := key (reproj bb.crs (some dst))
+      simpa [hs] using this
+
+/-- `boundary`: no points per side is an `IndexError`; one gives the first corner twice; two give the
+closed ring through the four corners (left-bottom first, counter-clockwise in the box's own frame) -/
+theorem bbox_boundary_small (bb : BBox Rat) :
+    bb.boundary 0 = .error .indexError ∧
+    bb.boundary 1 = .ok [(bb.left, bb.bottom), (bb.left, bb.bottom)] ∧
+    bb.boundary 2 = .ok [(bb.left, bb.bottom), (bb.right, bb.bottom), (bb.right, bb.top), (bb.left, bb.top),
+                         (bb.left, bb.bottom)] := by
+  refine ⟨?_, ?_, ?_⟩
+  · simp [BBox.boundary, edgeIndexClosed, linspaceQ, List.range_zero]
+  · simp [BBox.boundary, edgeIndexClosed, linspaceQ, List.range_succ, List.range_zero, bind, Except.bind, pure, Except.pure]
+  · simp [BBox.boundary, edgeIndexClosed, linspaceQ, List.range_succ, List.range_zero, bind, Except.bind, pure, Except.pure]
+    norm_num
+
+/-- **A non-linear (GCP) operand never produces a result**: `|`, `&`, `overlap_roi`, `snap_to` with a
+GCPGeoBox on either side are refused — nothing is silently approximated through `GCPGeoBox.approx`. -/
+theorem nonlinear_never_result (x : Operand) (tol : Rat) :
+    x.or .nonlinear = .refused ∧ Operand.nonlinear.or x = .refused ∧
+    x.and .nonlinear = .refused ∧ Operand.nonlinear.and x = .refused ∧
+    x.overlapRoi .nonlinear tol = .refused ∧ Operand.nonlinear.overlapRoi x tol = .refused ∧
+    x.snapTo .nonlinear = .refused ∧ Operand.nonlinear.snapTo x = .refused := by
+  cases x <;> exact ⟨rfl, rfl, rfl, rfl, rfl, rfl, rfl, rfl⟩
+
+/-- with linear operands the operand-level operations are the modelled ones -/
+theorem linear_operands (a b : GeoBox) (tol : Rat) :
+    (Operand.linear a).or (.linear b) = .res (a.or b) ∧ (Operand.linear a).and (.linear b) = .res (a.and b) ∧
+    (Operand.linear a).overlapRoi (.linear b) tol = .res (a.overlapRoi b tol) ∧
+    (Operand.linear a).snapTo (.linear b) = .res (a.snapTo b) := ⟨rfl, rfl, rfl, rfl⟩
+
+end OdcGeo.C16
+
+namespace OdcGeo.C16
+/-- non-vacuity of `enclosing_bbox_world_tight`: a mirrored, anisotropic axis-aligned grid and a proper box -/
+example : ∃ (g : GeoBox) (bb : BBox Rat), g.aff.det ≠ 0 ∧ g.crs ≠ none ∧ g.aff.b = 0 ∧ g.aff.d = 0 ∧ bb.crs = g.crs ∧
+    bb.left ≤ bb.right ∧ bb.bottom ≤ bb.top :=
+  ⟨⟨3, 3, ⟨-2, 0, 64, 0, -4, 32⟩, some 1⟩, ⟨0, 0, 2, 2, some 1⟩, by simp [Aff.det], by simp, rfl, rfl, rfl,
+    by norm_num, by norm_num⟩
+end OdcGeo.C16
+
+namespace OdcGeo.C16
+open OdcGeo
+
+/-! ## Part Q — `functools.reduce` of the binary operators = the n-ary functions -/
+
+/-- **`reduce(operator.or_, geoboxes)` is `geobox_union_conservative(geoboxes)`** for every list of
+GeoBoxes on a common grid (any length, any order, empty members included): same shape and same world
+affine, although the reference changes at every step of the fold. -/
+theorem reduce_or_eq_union (g0 : GeoBox) (hdet : g0.aff.det ≠ 0) (r : Rect) (ss : List Rect) :
+    List.foldlM (fun acc g => acc.or g) (onGrid g0 r) (ss.map (onGrid g0)) =
+      geoboxUnionConservative ((r :: ss).map (onGrid g0)) := by
+  induction ss generalizing r with
+  | nil =>
+    rw [union_list_onGrid g0 hdet r []]
+    rfl
+  | cons s ss ih =>
+    rw [union_list_eq_fold g0 hdet r s ss, or_onGrid g0 hdet]
+    simp only [List.map, List.foldlM, or_onGrid g0 hdet, bind, Except.bind]
+    have := ih (r.union s)
+    simp only [List.map] at this
+    exact this
+
+/-- **`reduce(operator.and_, geoboxes)` is `geobox_intersection_conservative(geoboxes)`** on a common
+grid, although the fold normalises an empty intermediate result at every step and the n-ary form only
+at the end (shapes are never negative: `r.Valid`). -/
+theorem reduce_and_eq_inter (g0 : GeoBox) (hdet : g0.aff.det ≠ 0) (r : Rect) (hr : r.Valid) (ss : List Rect) :
+    List.foldlM (fun acc g => acc.and g) (onGrid g0 r) (ss.map (onGrid g0)) =
+      geoboxIntersectionConservative ((r :: ss).map (onGrid g0)) := by
+  induction ss generalizing r with
+  | nil =>
+    rw [inter_list_onGrid g0 hdet r []]
+    obtain ⟨x0, y0, x1, y1⟩ := r
+    obtain ⟨h1, h2⟩ := hr
+    simp only at h1 h2
+    simp only [List.map, List.foldlM, List.foldl, pure, Except.pure, Rect.norm, max_eq_right h1, max_eq_right h2]
+  | cons s ss ih =>
+    rw [inter_list_eq_fold g0 hdet r s ss, and_onGrid g0 hdet]
+    simp only [List.map, List.foldlM, and_onGrid g0 hdet, bind, Except.bind]
+    have := ih (r.inter s) ⟨by simp only [Rect.inter]; omega, by simp only [Rect.inter]; omega⟩
+    simp only [List.map] at this
+    exact this
+
+example : (⟨0, 0, 0, 3⟩ : Rect).Valid := ⟨by decide, by decide⟩
+
+end OdcGeo.C16
